@@ -27,6 +27,13 @@ func mkSource(n *Node, how int) interface{} {
 	return c
 }
 
+// c01Src is B as a Go struct (the third kind of source the statement names).
+type c01Src struct {
+	K interface{} `config:"k"`
+	T uint64      `config:"t"`
+	L []uint64    `config:"l"`
+}
+
 // H_C01_pair: one varying key next to fixed siblings on both sides, all five policies.
 func H_C01_pair() {
 	sp := c01Spec()
@@ -35,14 +42,24 @@ func H_C01_pair() {
 	a := nDict().set("k", x).set("s", nUint(verif.Uint64("A.s"))).set("l", nList(nUint(1), nUint(2)))
 	b := nDict().set("k", y).set("t", nUint(verif.Uint64("B.t"))).set("l", nList(nUint(verif.Uint64("B.l0"))))
 	pol := verif.Choice("policy", nPolicies)
-	how := verif.Choice("source", 2)
+	how := verif.Choice("source", 3)
 
 	ca, err := ucfg.NewFrom(a.toGo())
 	verif.Assert(err == nil, "C01/NewFrom(A) accepted")
 	if err != nil {
 		return
 	}
-	err = ca.Merge(mkSource(b, how), polOpts(pol)...)
+	var src interface{}
+	if how == 2 {
+		// a struct: an absent k cannot be expressed (a nil field is the setting nil)
+		if y.Kind == kAbsent {
+			return
+		}
+		src = c01Src{K: y.toGo(), T: b.get("t").U, L: []uint64{b.get("l").List[0].U}}
+	} else {
+		src = mkSource(b, how)
+	}
+	err = ca.Merge(src, polOpts(pol)...)
 	verif.Assert(err == nil, "C01/Merge accepted/"+polName[pol])
 	if err != nil {
 		return
